@@ -409,6 +409,10 @@ func runConc(a []string) {
 			fmt.Fprintln(out, "=", concGCStress(dir, int(atoi(f[1])), int(atoi(f[2]))))
 		case "csyncack":
 			fmt.Fprintln(out, "=", concSyncAck(dir, int(atoi(f[1]))))
+		case "cedge":
+			fmt.Fprintln(out, "=", edgeBatch(dir))
+		case "cpollstress":
+			fmt.Fprintln(out, "=", concPollStress(dir, int(atoi(f[1])), int(atoi(f[2]))))
 		}
 		out.Flush()
 	}
@@ -495,6 +499,164 @@ func concStress(dir string, iters, ms int) string {
 		}
 	}
 	return fmt.Sprintf("ok ops=%d linearizable (stress: no call failed)", iters)
+}
+
+// cedge: batches whose last message sits at the 64 MiB body limit (C02) - for bodies of 64 MiB - d, d in a few
+// values around the record overheads, and 64 MiB + 1: Publish [a, b, BIG] either succeeds and assigns three
+// consecutive offsets, or fails and assigns none; then [c] is published; across the whole run, and again after a
+// reopen, every offset read back is assigned exactly once, in increasing order, and NextOffset is one past the last.
+func edgeBatch(dir string) string {
+	const lim = 64 * 1024 * 1024
+	for _, ver := range []int{2, 1} {
+		for _, d := range []int{0, 1, 28, 35, 36, -1} {
+			os.RemoveAll(dir)
+			os.MkdirAll(dir, 0700)
+			o := klevdb.Options{}
+			if ver == 1 {
+				o.Version.NewSegmentsVersion = klevdb.V1
+			}
+			l, err := klevdb.Open(dir, o)
+			if err != nil {
+				return "err open " + errClass(err)
+			}
+			want := int64(0)
+			big := make([]byte, lim-d-1)
+			n, err := l.Publish([]klevdb.Message{{Key: []byte("a"), Value: []byte("1")}, {Key: []byte("b"), Value: []byte("2")}, {Key: []byte("B"), Value: big}})
+			if err == nil {
+				if n != 3 {
+					l.Close()
+					return fmt.Sprintf("err OffsetReused v%d d=%d: a batch of 3 on an empty log returned %d", ver, d, n)
+				}
+				want = 3
+			}
+			n2, err2 := l.Publish([]klevdb.Message{{Key: []byte("c"), Value: []byte("3")}})
+			if err2 != nil || n2 != want+1 {
+				l.Close()
+				return fmt.Sprintf("err OffsetReused v%d d=%d: first Publish err=%v; the next Publish returned %d (%v), expected %d", ver, d, err, n2, err2, want+1)
+			}
+			chk := func(l klevdb.Log, when string) string {
+				next, err := l.NextOffset()
+				if err != nil || next != want+1 {
+					return fmt.Sprintf("err OffsetReused v%d d=%d %s: NextOffset %d (%v), expected %d", ver, d, when, next, err, want+1)
+				}
+				off, last := klevdb.OffsetOldest, int64(-1)
+				for i := 0; i < 10; i++ {
+					nx, msgs, err := l.Consume(off, 2)
+					if err != nil {
+						return fmt.Sprintf("err OffsetReused v%d d=%d %s: Consume(%d): %v", ver, d, when, off, err)
+					}
+					for _, m := range msgs {
+						if m.Offset <= last {
+							return fmt.Sprintf("err OffsetReused v%d d=%d %s: offset %d read after %d (first Publish err=%v)", ver, d, when, m.Offset, last, err)
+						}
+						last = m.Offset
+					}
+					if len(msgs) == 0 {
+						break
+					}
+					off = nx
+				}
+				if last != want {
+					return fmt.Sprintf("err OffsetReused v%d d=%d %s: last offset read %d, expected %d", ver, d, when, last, want)
+				}
+				return ""
+			}
+			if r := chk(l, "same session"); r != "" {
+				l.Close()
+				return r
+			}
+			l.Close()
+			l, err = klevdb.Open(dir, o)
+			if err != nil {
+				return fmt.Sprintf("err OffsetReused v%d d=%d reopen: %v", ver, d, err)
+			}
+			r := chk(l, "after reopen")
+			l.Close()
+			if r != "" {
+				return r
+			}
+		}
+	}
+	os.RemoveAll(dir)
+	return "ok ops=12 linearizable (batches at the size limit: all or nothing)"
+}
+
+// cpollstress <iterations> <ms>: tailing consumers - one goroutine publishes batches of 1..3 messages, six poll
+// Consume(cursor, 32) with the cursor fed back; nothing is ever deleted, so what a poll returns must start exactly at
+// the cursor, be consecutive, and move the cursor by exactly the number of messages returned (no gap, no error).
+func concPollStress(dir string, iters, ms int) string {
+	for it := 0; it < iters; it++ {
+		os.RemoveAll(dir)
+		os.MkdirAll(dir, 0700)
+		o := klevdb.Options{KeyIndex: it%2 == 0, Rollover: []int64{1 << 20, 4096, 512}[it%3]}
+		if it%4 == 3 {
+			o.Version.NewSegmentsVersion = klevdb.V1
+		}
+		l, err := klevdb.Open(dir, o)
+		if err != nil {
+			return "err open " + errClass(err)
+		}
+		var stop atomic.Bool
+		done := make(chan string, 8)
+		go func() {
+			for i := 0; !stop.Load(); i++ {
+				n := 1 + i%3
+				msgs := make([]klevdb.Message, n)
+				for j := range msgs {
+					msgs[j] = klevdb.Message{Key: []byte("k"), Value: []byte(fmt.Sprintf("v%08d", i))}
+				}
+				if _, err := l.Publish(msgs); err != nil {
+					done <- "Publish: " + errClass(err) + ": " + err.Error()
+					return
+				}
+			}
+			done <- ""
+		}()
+		for g := 0; g < 6; g++ {
+			go func() {
+				cur := int64(0)
+				for !stop.Load() {
+					next, msgs, err := l.Consume(cur, 32)
+					if err != nil {
+						done <- fmt.Sprintf("Consume(%d): %s: %s", cur, errClass(err), err.Error())
+						return
+					}
+					for j, m := range msgs {
+						if m.Offset != cur+int64(j) {
+							done <- fmt.Sprintf("Consume(%d) returned offset %d at position %d", cur, m.Offset, j)
+							return
+						}
+					}
+					if next != cur+int64(len(msgs)) {
+						done <- fmt.Sprintf("Consume(%d) returned %d messages and next=%d: a gap although nothing was deleted", cur, len(msgs), next)
+						return
+					}
+					cur = next
+				}
+				done <- ""
+			}()
+		}
+		first := ""
+		select {
+		case first = <-done:
+		case <-time.After(time.Duration(ms) * time.Millisecond):
+		}
+		stop.Store(true)
+		for k := 0; k < 7 && first == ""; k++ {
+			select {
+			case r := <-done:
+				first = r
+			case <-time.After(5 * time.Second):
+				first = "Hang"
+			}
+		}
+		time.Sleep(20 * time.Millisecond)
+		l.Close()
+		if first != "" {
+			return fmt.Sprintf("err CallFailed iteration=%d %s", it, strings.ReplaceAll(first, "\n", " "))
+		}
+	}
+	return fmt.Sprintf("ok ops=%d linearizable (poll stress: no gap)", iters)
 }
 
 // csyncack <rounds>: Sync under load (C06) - four goroutines publish fixed-size messages into one segment while one
